@@ -14,6 +14,7 @@ from asttokens.util import Token
 from executing.executing import EnhancedAST
 
 from inline_snapshot._source_file import SourceFile
+from inline_snapshot._source_file import token_range_of
 
 from ._rewrite_code import ChangeRecorder
 from ._rewrite_code import end_of
@@ -78,7 +79,7 @@ class Replace(Change):
 
     def apply(self, recorder: ChangeRecorder):
         change = recorder.new_change()
-        range = self.file.asttokens().get_text_positions(self.node, False)
+        range = token_range_of(self.file.asttokens(), self.node)
         change.replace(range, self.new_code, filename=self.filename)
 
 
@@ -198,8 +199,7 @@ def apply_all(all_changes: List[Change], recorder: ChangeRecorder):
             }
 
             def list_token_range(entry):
-                r = list(source.asttokens().get_tokens(entry))
-                return r[0], r[-1]
+                return token_range_of(source.asttokens(), entry)
 
             generic_sequence_update(
                 source,
@@ -219,8 +219,7 @@ def apply_all(all_changes: List[Change], recorder: ChangeRecorder):
             def arg_token_range(node):
                 if isinstance(node.parent, ast.keyword):
                     node = node.parent
-                r = list(atok.get_tokens(node))
-                return r[0], r[-1]
+                return token_range_of(atok, node)
 
             braces_left = atok.next_token(list(atok.get_tokens(parent.func))[-1])
             assert braces_left.string == "("
@@ -268,8 +267,8 @@ def apply_all(all_changes: List[Change], recorder: ChangeRecorder):
 
             def dict_token_range(key, value):
                 return (
-                    list(source.asttokens().get_tokens(key))[0],
-                    list(source.asttokens().get_tokens(value))[-1],
+                    token_range_of(source.asttokens(), key)[0],
+                    token_range_of(source.asttokens(), value)[1],
                 )
 
             generic_sequence_update(
